@@ -229,6 +229,11 @@ func (c *cenv) pkgObject(o types.Object) (cval, error) {
 	switch x := o.(type) {
 	case *types.Const:
 		return c.constCval(x)
+	case *types.Func:
+		// a declared function used as a value
+		if x.Pkg() != nil {
+			return cval{c.e.fnConst(x.Pkg().Name() + "." + x.Name()), "Ref", x.Type()}, nil
+		}
 	case *types.Var:
 		// package-level variable: its cell
 		e := c.e
